@@ -106,6 +106,17 @@ func quorumPair(out *ndjson, ws []uint64, a, b []int) {
 
 // randIds draws an id multiset: members, duplicates, outsiders (0, n+1, n+2).
 func randIds(r *rand.Rand, n int) []int {
+	if r.Intn(12) == 0 { // as many (or more) distinct ids as the committee has members, most or all of them outsiders
+		k := n + r.Intn(3)
+		out := make([]int, 0, k)
+		for i := 0; i < k; i++ {
+			out = append(out, n+1+i)
+		}
+		if r.Intn(2) == 0 && n > 0 {
+			out[0] = 1 + r.Intn(n)
+		}
+		return out
+	}
 	k := r.Intn(2*n + 2)
 	out := make([]int, 0, k)
 	for i := 0; i < k; i++ {
